@@ -597,7 +597,13 @@ class C12(Prop):
             "watcher pattern occurs in a stream's text and that stream has >= 2 reads.  thorough adds every "
             "composition of every text of length <= 6 over {a,b,newline} (and every 81st of length 7) x the "
             "patterns occurring in it, every composition of length <= 5 over {a, CR, LF}, and length <= 4 x 4 "
-            "failing pairs")
+            "failing pairs.  BYTE family (about an eighth of a quick run): the output handed to the runner as "
+            "UTF-8 bytes of texts with two-byte characters (U+0080..U+00FF), reads cut at every byte position "
+            "-- also inside a character -- on one stream while the other stream is silent, delivers ASCII or "
+            "delivers a (cut) character of its own in between, every interleaving of the two readers, either "
+            "stream in either role, 14 patterns with and without non-ASCII characters, responders and "
+            "failing responders, run and sudo; a systematic part (sampled: 280 quick / 2500 thorough) plus "
+            "random members (6% of the random cases)")
     trusted_base = [
         "Coq 8.16.1 kernel + vm_compute (shard evaluation, witnesses)",
         "hand-written models coq/Model/RegexFam.v (re.findall on the fixed-length family; checked against the "
@@ -611,12 +617,15 @@ class C12(Prop):
         "variable-length patterns are outside the family (no online responder can be chunk independent for them)",
         "reads are delivered one at a time (the schedule is a total order of reads; true thread preemption "
         "inside Runner.respond is not modelled)",
-        "ASCII text; decoding of reads is C02's business",
+        "byte family: every stream's bytes are well-formed UTF-8 of code points below 256 (the watcher model has "
+        "8-bit characters); ill-formed bytes, a stream ending inside a character (U+FFFD from the flush at EOF) "
+        "and other encodings are C02's business",
         "real-pipe delivery (extra_checks) is tested on a handful of scripts, not proved",
     ]
     not_modelled = ["regex features beyond the family (groups, alternation, repetition, anchors)",
                     "writes to the child's stdin racing between the two IO threads",
-                    "user-defined StreamWatcher subclasses"]
+                    "user-defined StreamWatcher subclasses",
+                    "code points >= 256, replacement characters, the decoder's flush at end of stream"]
 
     # ---- generation --------------------------------------------------------
     def _watchers(self, rng, nmax=3):
